@@ -89,7 +89,7 @@ static Verdict c01_check_raw(const KV &c, Ctx &ctx) {
   Cost cost = decode_cost(S, P.size());
   cost.units *= 4;  // up to four hashes per case
   Method m = result_method(S, P.size());
-  if (!affordable(cost, ctx.tier)) {
+  if (!affordable_q(cost, ctx.tier, (int)classify_tag(S))) {
     ctx.st.skipped_cost++;
     ctx.st.cls(std::string("skipped-cost/") + METHOD_NAME[m]);
     return "";
@@ -135,7 +135,7 @@ static Verdict c06_check_raw(const KV &c, Ctx &ctx) {
   if (P.size() >= 512 || memchr(P.data(), 0, P.size()) || memchr(S.data(), 0, S.size())) return "";
   Cost cost = decode_cost(S, P.size());
   cost.units *= 2;
-  if (!affordable(cost, ctx.tier)) {
+  if (!affordable_q(cost, ctx.tier, (int)classify_tag(S))) {
     ctx.st.skipped_cost++;
     return "";
   }
